@@ -259,3 +259,63 @@ func VH_C03_actionNames() {
 		vAssert(b.visits == 0 && c.visits == 0, "flow-ends-exactly-where-the-table-ends")
 	}
 }
+
+// repeated runs of one flow object: whatever the previous run was like — a node failing in any
+// phase, in the start node or later — the next run starts at the start node and follows the table
+type c03FailProbe struct {
+	*BaseNode
+	id     int
+	log    *[]int
+	failAt *int // 0 none, 1 prep, 2 exec, 3 post — consumed by the first node that draws it
+	me     int
+}
+
+func (n *c03FailProbe) Prep(ctx context.Context, s *SharedStore) (any, error) {
+	*n.log = append(*n.log, n.id)
+	if *n.failAt == 1 && n.me == n.id {
+		return nil, vNewErr()
+	}
+	return nil, nil
+}
+func (n *c03FailProbe) Exec(ctx context.Context, p any) (any, error) {
+	if *n.failAt == 2 && n.me == n.id {
+		return nil, vNewErr()
+	}
+	return nil, nil
+}
+func (n *c03FailProbe) Post(ctx context.Context, s *SharedStore, p, e any) (Action, error) {
+	if *n.failAt == 3 && n.me == n.id {
+		return "next", vNewErr()
+	}
+	return "next", nil
+}
+
+func VH_C03_rerunAfterFailure() {
+	vUnwind(8)
+	var log []int
+	failAt := vChoice("failingPhase", 4)
+	who := vChoice("failingNode", 2)
+	a := &c03FailProbe{BaseNode: NewBaseNode(), id: 0, log: &log, failAt: &failAt, me: who}
+	b := &c03FailProbe{BaseNode: NewBaseNode(), id: 1, log: &log, failAt: &failAt, me: who}
+	var flow *Flow
+	if vNondet[bool]("nested") {
+		inner := NewFlow(a)
+		inner.Connect(a, "next", b)
+		flow = NewFlow(inner)
+	} else {
+		flow = NewFlow(a)
+		flow.Connect(a, "next", b)
+	}
+	err1 := flow.Run(vNewCtx(), NewSharedStore())
+	if failAt != 0 {
+		vCover("first-run-failed")
+		vAssume(err1 != nil)
+	}
+	failAt = 0
+	log = nil
+	err := flow.Run(vNewCtx(), NewSharedStore())
+	vAssert(err == nil, "routing-never-fails")
+	vAssert(len(log) >= 1 && log[0] == 0, "start-node-runs")
+	vAssert(len(log) == 2 && log[1] == 1, "flow-ends-exactly-where-the-table-ends")
+	vCover("second-run")
+}
